@@ -380,7 +380,7 @@ pub fn run_c01(ctx: &Ctx) -> Report {
     #[cfg(feature = "likelysubtags")]
     for fam in ["parse", "maximize", "minimize", "direction"] {
         // a deadlock or a livelock between concurrent callers is a hang: shuttle reports both
-        super::conc::run_family(ctx, fam, "c01.schedule", &mut rep);
+        super::conc::run_family_mode(ctx, fam, "c01.schedule", &mut rep, true);
     }
     rep.rule = "Totality. (a) E1 token trees + E2 skeletons and edit neighbourhoods through 27 text-accepting entry points of both crates (parsers, FromStr, canonicalize, try_from_iter, ExtensionsMap, the four subtag constructors); (b) every byte string of length <= 2 and boundary-class strings to length 9 as the argument of 15 getter/setter functions on three receivers; (c) every (language, script, region) of the CLDR universe through maximize, minimize and character_direction; (d) a fixed list of large inputs under a 5 s per-case watchdog; (e) every call made in the E3 harnesses. The oracle is: the call returns (Ok or Err), no panic, no hang, child exit status 0. distinct_nontrivial = inputs of the E1/E2 trees on which no entry point panicked (distinct by construction).".into();
     rep.assumptions = vec!["a hang is a case that stays current for more than 5 s; abort/stack overflow is observed through the worker's exit status".into()];
